@@ -431,6 +431,14 @@ def _check_decode(cls, row, raw, forms=FORMS):
             out.append((_classify(name, got, ref), "%s.from_list with raw [%s] (bank image given as %s) gave %r, "
                         "reference says %r" % (name, _hex(raw), form, got[1], ref[1])))
             break
+        if got[0] != "flag" and ref[0] != "flag":
+            # a value is a value: it does not compare equal to (or hash and look up as) one of the flags
+            FV = _lib()["location"].FlagValue
+            clash = [m for m in FV if got[1] == m or m == got[1] or (isinstance(got[1], (str, int, bytes)) and got[1] in {m: 1})]
+            if clash:
+                out.append(("C11:value-equals-a-flag:" + name, "%s.from_list with raw [%s] gave the value %r, which compares equal "
+                            "to the flag %r" % (name, _hex(raw), got[1], clash[0])))
+                break
     try:
         f = cls.check_raw(raw)
     except Exception as e:  # noqa
@@ -512,6 +520,10 @@ def number_boundaries(width, row):
 def string_boundaries(w):
     bases = [bytes([0x41] * w), bytes(w), bytes(0x20 + i % 95 for i in range(w))]
     out = set(bases)
+    # texts that spell the names of the flags: they are texts
+    for t in (b"MASK", b"TMASK", b"Invalid", b"INVALID", b"None", b"0"):
+        if len(t) <= w:
+            out.add(t.ljust(w, b"\x00"))
     for fill in (0xFF, 0x7F, 0x01, 0x80):
         out.add(bytes([fill] * w))
     for p in range(w):
